@@ -21,6 +21,7 @@ impl Visit for V {
     fn record_str(&mut self, f: &Field, v: &str) { self.put(STR, v.len() as u128, f, v.as_ptr() as usize) }
     fn record_bytes(&mut self, f: &Field, v: &[u8]) { self.put(BYTES, v.len() as u128, f, v.as_ptr() as usize) }
     fn record_debug(&mut self, f: &Field, v: &dyn core::fmt::Debug) { self.put(DEBUG, 0, f, v as *const dyn core::fmt::Debug as *const () as usize) }
+    fn record_error(&mut self, f: &Field, v: &(dyn std::error::Error + 'static)) { self.put(ERROR, 0, f, v as *const dyn std::error::Error as *const () as usize) }
 }
 struct Cs2;
 static CSA: Cs2 = Cs2; static CSB: Cs2 = Cs2;
@@ -112,4 +113,27 @@ fn c10_valueset_visits_own_some_values_in_order_bounded() {
         i += 1;
     }
     assert!(v.n == k, "C10.ValueSet.record.nothing_else_is_visited");
+}
+
+// error values: all four `dyn Error` flavours (plain, + Send, + Sync, + Send + Sync) reach record_error - not
+// record_debug - exactly once, with the very same error object (so its source() chain stays available)
+#[derive(Debug)]
+struct VErr(u8);
+impl core::fmt::Display for VErr { fn fmt(&self, _: &mut core::fmt::Formatter<'_>) -> core::fmt::Result { Ok(()) } }
+impl std::error::Error for VErr {}
+#[kani::proof]
+#[kani::unwind(6)]
+#[kani::stub(core::fmt::Formatter::pad, pad_stub)]
+fn c10_error_values_route_to_record_error_in_every_flavour() {
+    let e = VErr(nd());
+    let here = &e as *const VErr as *const () as usize;
+    let flavour: u8 = nd(); kani::assume(flavour < 4);
+    let v = match flavour {
+        0 => one(&e as &(dyn std::error::Error + 'static)),
+        1 => one(&e as &(dyn std::error::Error + Send + 'static)),
+        2 => one(&e as &(dyn std::error::Error + Sync + 'static)),
+        _ => one(&e as &(dyn std::error::Error + Send + Sync + 'static)),
+    };
+    assert!(v.n == 1 && v.kind[0] == ERROR && v.idx[0] == 1, "C10.value.dyn_Error.routed_to_record_error_exactly_once_under_its_field");
+    assert!(v.ptr[0] == here, "C10.value.dyn_Error.the_same_error_object_is_handed_over");
 }
